@@ -49,16 +49,33 @@ pub fn parse_args() -> Args {
     std::process::exit(2)
   });
   let mut tier = std::env::var("VERIF_TIER").unwrap_or_else(|_| "quick".to_string());
-  let mut replay = None;
+  let mut tier_given = false;
+  let mut replay: Option<String> = None;
   let mut extra = vec![];
   while let Some(a) = it.next() {
     match a.as_str() {
-      "--tier" => tier = it.next().unwrap_or(tier.clone()),
+      "--tier" => {
+        tier = it.next().unwrap_or(tier.clone());
+        tier_given = true;
+      }
       "--replay" => replay = it.next(),
       _ => extra.push(a),
     }
   }
-  let seed = std::env::var("VERIF_SEED").ok().and_then(|s| s.parse().ok()).unwrap_or(1u64);
+  let mut seed = std::env::var("VERIF_SEED").ok().and_then(|s| s.parse().ok()).unwrap_or(1u64);
+  // a replay file knows the tier and the seed it was found with (the case index only means something for those)
+  if let Some(doc) = replay.as_ref().and_then(|p| std::fs::read_to_string(p).ok()).and_then(|s| serde_json::from_str::<serde_json::Value>(&s).ok()) {
+    if !tier_given {
+      if let Some(t) = doc["tier"].as_str() {
+        tier = t.to_string();
+      }
+    }
+    if std::env::var("VERIF_SEED").is_err() {
+      if let Some(sd) = doc["seed"].as_u64() {
+        seed = sd;
+      }
+    }
+  }
   let verif_dir = PathBuf::from(std::env::var("RUSTDDS_VERIF_DIR").unwrap_or_else(|_| "/verif".to_string()));
   Args { id, tier, seed, replay, verif_dir, extra }
 }
